@@ -132,9 +132,11 @@ def main():
     import extract_layouts
     import extract_ws
     import extract_http
+    import extract_supervise
     GENERATORS.update(extract_layouts.GENERATORS)
     GENERATORS.update(extract_ws.GENERATORS)
     GENERATORS.update(extract_http.GENERATORS)
+    GENERATORS.update(extract_supervise.GENERATORS)
     failed = []
     for name, fn in GENERATORS.items():
         try:
